@@ -80,6 +80,10 @@ func (this *OneDimensionalCodeWriter) Encode(
 				"IllegalArgumentException: invalid type hints[EncodeHintType_MARGIN], %T", margin)
 		}
 	}
+	if sidesMargin < 0 {
+		return nil, gozxing.NewWriterException(
+			"IllegalArgumentException: Negative margin is not allowed. Input: %d", sidesMargin)
+	}
 
 	code, e := this.encodeWithHints(contents, hints)
 	if e != nil {
